@@ -1425,6 +1425,10 @@ def target_worker_thread(host: str, port: int, shared_aconf: AuditConf) -> Tuple
     except Exception:
         ret = -1
         string_output = "An exception occurred while scanning %s:%d:\n%s" % (host, port, str(traceback.format_exc()))
+    finally:
+        # Discard this thread's private copies of the algorithm databases.  Worker threads are re-used for several targets, and the notes recorded while scanning this target (Terrapin warnings, key and modulus size findings) must not show up in the next target's report.
+        SSH1_KexDB.thread_exit()
+        SSH2_KexDB.thread_exit()
 
     return ret, string_output
 
